@@ -10,6 +10,9 @@ mod cmd_record;
 mod cmd_compare;
 mod cmd_linkage;
 mod cmd_setmeta;
+mod cmd_group;
+mod cmd_termid;
+mod cmd_cats;
 #[cfg(hpo_verif)]
 mod cmd_algo;
 mod enc;
@@ -39,6 +42,9 @@ fn main() {
         "replay-compare" => cmd_compare::run(&args),
         "replay-linkage" => cmd_linkage::run(&args),
         "replay-setmeta" => cmd_setmeta::run(&args),
+        "replay-group" => cmd_group::run(&args),
+        "replay-termid" => cmd_termid::run(&args),
+        "replay-cats" => cmd_cats::run(&args),
         #[cfg(hpo_verif)]
         "record-algo" => cmd_algo::run(&args),
         "debug-mismatch" => cmd_binary::debug_mismatch(&args),
@@ -59,6 +65,9 @@ fn main() {
                 "replay-binary" => cmd_binary::replay_one(&v),
                 "replay-jax" => cmd_jax::replay_one(&v),
                 "replay-lookup" => cmd_lookup::replay_one(&v),
+                "replay-group" => cmd_group::replay_one(&v),
+                "replay-termid" => cmd_termid::replay_one(&v),
+                "replay-cats" => cmd_cats::replay_one(&v),
                 other => {
                     eprintln!("unknown replay cmd {other}");
                     std::process::exit(2)
